@@ -151,7 +151,10 @@ def texts(draw, enc, max_lines=6, nonempty=True):
     # the first real line break
     if enc in MULTIBYTE and draw(st.integers(0, 3)) == 0:
         trap = draw(st.sampled_from(['ੁ\x00', 'ੁ　', '䄀ੁ',
-                                     '\u0d0a\u0000', '\u0a0d\u0a0a']))
+                                     '\u0d0a\u0000', '\u0a0d\u0a0a',
+                                     # ... followed by a 0x20 byte
+                                     '\u0a41\u2000x', '\u4100\u0a20x',
+                                     '\u0a41\u2000\u0a41\u2000']))
 
         if _encodable_in(trap, enc):
             idxs = [j for j, p_ in enumerate(parts) if p_ not in TERMS]
